@@ -827,6 +827,18 @@ def slice_get(I, c):
     return NONE()
 
 
+@model_re(r'^(std::slice::|core::slice::)(windows)$')
+def slice_windows(I, c):
+    # overlapping read-only sub-slices of a concrete length: each window shares the element objects of the slice
+    v = _vc(c.args[0])
+    n = c.args[1]
+    if not is_conc(n):
+        raise Unsupported('windows with a symbolic size')
+    if n == 0:
+        raise RustPanic('window size must be non-zero')
+    return VecIntoIter([Ref([Vc(v.e[i:i + n])], 0) for i in range(0, max(len(v.e) - n + 1, 0))])
+
+
 @model_re(r'^(std::slice::|core::slice::)(contains)$')
 def slice_contains(I, c):
     v = _vc(c.args[0])
